@@ -657,6 +657,27 @@ impl Ser {
                 }
             }
         }
+        // a writer that runs out of room part-way: the Write-based entry point cannot have emitted "the same bytes",
+        // so it has to say so
+        if plain.len() >= 2 && rng.chance(1, 8) {
+            let room = rng.below(plain.len() - 1);
+            let r = guard(|| {
+                let mut fw = FailingWriter::new(room);
+                let r = if with_norm { xot.serialize_xml_write_with_normalizer(sparams.clone(), target, &mut fw, TestNormalizer) } else { xot.serialize_xml_write(sparams.clone(), target, &mut fw) };
+                r.is_ok()
+            });
+            match r {
+                Ok(false) => ctx.count("failing_writer_reported_as_error"),
+                other => {
+                    ctx.violation(
+                        "the writer failed after part of the output and the Write-based entry point did not report it",
+                        format!("C16/failing-writer/{}", if other.is_ok() { "reported-ok" } else { "panic" }),
+                        base(format!("room for {} of {} bytes: {:?}", room, plain.len(), other.map_err(|p| p.short()))),
+                    );
+                    return;
+                }
+            }
+        }
         ctx.count("writers_equal_string");
         // with an XML declaration and / or a doctype the string is that prolog followed by exactly the token text
         // of the SAME node (a document keeps the comments and PIs around its document element)
